@@ -39,6 +39,11 @@ type C05Sc struct {
 	Table    []world.Seg   `json:"table,omitempty"`
 	Events   []world.Event `json:"events,omitempty"`
 	MaxSteps int           `json:"max_steps,omitempty"`
+	// NilIO: no I/O device attached (cpu.IO == nil): port traffic is unobservable, IN reads 0,
+	// every memory access of the instruction must still happen
+	NilIO bool `json:"nil_io,omitempty"`
+	// Swap (program family): host replaces cpu.Memory/cpu.IO by equal-content devices before every Step (1) / copies the CPU struct too (2)
+	Swap int `json:"swap,omitempty"`
 }
 
 type c05 struct{}
@@ -80,6 +85,7 @@ func cornerByte(r *world.Rng) uint8 {
 
 func (c05) Gen(r *world.Rng, tier string, n int) interface{} {
 	sc := &C05Sc{MemSeed: r.U64(), IOSeed: r.U64()}
+	sc.NilIO = r.Chance(1, 8)
 	if n%5 == 4 {
 		sc.Family = "program"
 		mode := r.Intn(3)
@@ -99,6 +105,9 @@ func (c05) Gen(r *world.Rng, tier string, n int) interface{} {
 			sc.Events = append(sc.Events, ev)
 		}
 		sc.MaxSteps = 1500
+		if r.Chance(1, 5) {
+			sc.Swap = r.Range(1, 2)
+		}
 		return sc
 	}
 	sc.Family = "sweep"
@@ -182,6 +191,26 @@ func fmtAddrs(a []uint16) string {
 // checkStepBus compares the recorded history of one (non-acceptance) Step with
 // the model's expectation computed from the pre-state. after: CPU after.
 func checkStepBus(exp model.BusExp, before z80.States, after *z80.CPU, log []world.Acc) *Violation {
+	if after.IO == nil {
+		// no device: nothing to see on the port side, the device "returns" 0
+		var e2 model.BusExp = exp
+		e2.Ports = nil
+		for i := range e2.Writes {
+			if e2.Writes[i].FromPort {
+				e2.Writes = append([]model.AV(nil), e2.Writes...)
+				e2.Writes[i] = model.AV{Addr: e2.Writes[i].Addr, Val: 0}
+			}
+		}
+		for _, a := range log {
+			if a.Kind >= world.PI {
+				return viol("bus-ports", "%s at PC=%04x: port access %s although no I/O device is attached", exp.Class, before.PC, a)
+			}
+		}
+		exp = e2
+		if exp.In != model.InNone && exp.In != model.InMem {
+			exp.In = model.InNone // checked below through the register instead
+		}
+	}
 	var reads, wantReads []uint16
 	var writes []world.Acc
 	var ports []world.Acc
@@ -360,6 +389,9 @@ func (c05) Exec(sci interface{}, env *Env) *Violation {
 		return c05Program(sc, env)
 	}
 	m, _ := world.NewMachine(world.Regs{}, nil, sc.IOSeed, nil)
+	if sc.NilIO {
+		m.CPU.IO = nil
+	}
 	fillMem(&m.Bus.Mem, sc.MemSeed)
 	peek := func(a uint16) uint8 { return m.Bus.Mem[a] }
 	for i, c := range sc.Cases {
@@ -437,9 +469,18 @@ func c05Program(sc *C05Sc, env *Env) *Violation {
 	if err != nil {
 		return viol("harness", "bad scenario: %v", err)
 	}
+	if sc.NilIO {
+		m.CPU.IO = nil
+	}
 	peek := func(a uint16) uint8 { return m.Bus.Mem[a] }
 	for step := 0; step < sc.MaxSteps; step++ {
 		m.Boundary()
+		if sc.Swap != 0 && !sc.NilIO {
+			m.SwapDevices(sc.Swap == 2)
+		}
+		if m.StaleCount() != 0 {
+			return viol("stale-device", "step %d: %d accesses went to a Memory/IO value the host had already replaced", step, m.StaleCount())
+		}
 		before := m.CPU.States
 		req := m.CPU.Interrupt
 		willAccept := req != nil && (req.Type == z80.NMIType || before.IFF1)
